@@ -35,7 +35,13 @@ META = {
             "fall-backs behind them are asserted by the project's own unit tests number::tests::{add,sub,mul,div} "
             "(value and enum discriminant), so a repair would require editing the suite. The error bound of an inexact "
             "answer is a theorem for expt, abs, + and - (T08_2_*_accuracy: 2^-50 relative to max(|x|,|y|,|result|) for "
-            "magnitudes below 2^1000); for * and / it is carried by the rational oracle on the implementation only.",
+            "magnitudes below 2^1000) and now for * and / as well (T08_2_mul_accuracy, T08_2_div_accuracy: an inexact "
+            "product or quotient of well-formed exact operands is finite and within 2^-50*max(|x|,|y|,|result|) of the "
+            "exact result, under the hypotheses |x| < 2^1023, |y| < 2^1023, |exact result| < 2^1022 and, for /, a "
+            "non-zero divisor; no lower bound is assumed: a non-zero exact operand is proved to have magnitude >= 2^-31, "
+            "so the two operand conversions have pure relative error and the underflow term 2^-1075 of the last of the "
+            "three roundings is absorbed by max(|x|,|y|); a zero operand gives a zero answer); outside those magnitude "
+            "bounds (overflowing results) the bound is not claimed.",
     "technique": "Lean 4 proof (model answer = exact rational result, all representation pairs) + bit-exact "
                  "model-vs-implementation correspondence + rational-arithmetic oracle on the implementation",
 }
@@ -58,6 +64,8 @@ THEOREMS = [
     "Marwood.Proofs.C08.T08_2_abs_accuracy",
     "Marwood.Proofs.C08.T08_2_add_accuracy",
     "Marwood.Proofs.C08.T08_2_sub_accuracy",
+    "Marwood.Proofs.C08.T08_2_mul_accuracy",
+    "Marwood.Proofs.C08.T08_2_div_accuracy",
     "Marwood.Proofs.C08.pinned_expt_rational",
     "Marwood.Proofs.C08.rnd_monotone",
     "Marwood.Proofs.C08.rnd_exact_on_doubles",
